@@ -996,3 +996,77 @@ def replay_typecheck(w: dict) -> dict:
         return {"reproduced": bool(lines), "observed": lines[:6]}
     finally:
         gen.cleanup(root)
+
+
+# ---------------------------------------------------------------------------------------------- C06: loaders gate
+_LOADER_CASES = {
+    "empty": b"", "bom": b"\xef\xbb\xbf{}", "badutf8": b"\xff\xfe\x00{", "open": b"{", "list": b"- a\n- b\n", "null": b"null", "int": b"42", "nul": b"\x00",
+    "deep3k": b"[" * 3000, "deep100k_json_only": b"[" * 100000, "tab": b"a:\n\t- b", "anchor": b"a: &a [*a]", "dupkeys": b'{"a":1,"a":2}', "nan": b'{"openapi": NaN}',
+    "bigint": b'{"openapi": ' + b"9" * 5000 + b"}", "yaml_tag": b"!!python/object/apply:os.system ['true']", "merge": b"<<: *x", "ctrl": b"a: \x01", "utf16": "{}".encode("utf-16"),
+    "alias_self": b"&a a: *a", "colon": b":", "qmark": b"? ", "str": b'"just a string"', "float": b"1e400", "timestamp": b"2001-12-14t21:59:43.10-05:00", "setkey": b"? [a]\n: b",
+    "swagger": b'{"swagger": "2.0"}', "openapi_only": b'{"openapi": "3.1.0"}', "paths_list": b'{"openapi":"3.1.0","info":{"title":"t","version":"1"},"paths":[]}',
+}
+_LOADER_SCRIPT = r"""
+import sys, io, contextlib, pathlib, json
+from openapi_python_client import generate
+from openapi_python_client.config import Config, ConfigFile, MetaType
+f = pathlib.Path(sys.argv[1]); out = pathlib.Path(sys.argv[2])
+cfg = Config.from_sources(ConfigFile(post_hooks=[]), MetaType.NONE, f, "utf-8", True, out)
+try:
+    with contextlib.redirect_stdout(io.StringIO()):
+        errs = generate(config=cfg)
+    print(json.dumps({"raised": None, "diagnostics": len(errs), "errors": sum(getattr(e.level, "value", "") == "ERROR" for e in errs), "written": out.exists()}))
+except BaseException as e:
+    print(json.dumps({"raised": type(e).__name__ + ": " + str(e)[:120]}))
+"""
+
+
+def _loader_case(name: str, ext: str) -> str | None:
+    """None when the document (junk by construction) is rejected with an error-level diagnostic and nothing is written."""
+    data = _LOADER_CASES[name]
+    root = gen.scratch("verif-load-")
+    try:
+        f = root / ("doc" + ext)
+        f.write_bytes(data)
+        pr = subprocess.run([PY, "-c", _LOADER_SCRIPT, str(f), str(root / "out")], capture_output=True, text=True, timeout=300)
+        if pr.returncode != 0 and not pr.stdout.strip():
+            return f"the interpreter died (exit {pr.returncode}) on {name}{ext}"
+        r = json.loads(pr.stdout.strip().splitlines()[-1])
+        if r["raised"]:
+            return f"{name}{ext}: unhandled {r['raised']}"
+        if r["errors"] == 0:
+            return f"{name}{ext}: junk accepted without an error-level diagnostic"
+        if r["written"]:
+            return f"{name}{ext}: the document was rejected but the output directory was created"
+        return None
+    finally:
+        gen.cleanup(root)
+
+
+def loaders(tier: str = "quick", known: list | None = None, **_: Any) -> dict:
+    """C06 gate (concrete, engine=replay): junk bytes offered as JSON and as YAML are rejected with a diagnostic, no
+    exception escapes `generate`, nothing is written.  The loaders are C code (json, ruamel.yaml): no solver encoding."""
+    known_ids = {e["id"] for e in (known or [])}
+    wit, hits, n = [], set(), 0
+    for name in _LOADER_CASES:
+        for ext in (".json", ".yaml"):
+            if name == "deep100k_json_only" and ext == ".yaml":
+                continue  # probed below as the recorded finding
+            n += 1
+            p = _loader_case(name, ext)
+            if p:
+                wit.append({"what": "junk input is not turned into a diagnostic", "input": {"case": name, "ext": ext}, "observed": p, "reproduced": True, "replay_func": "vlib.replay_checks:replay_loader"})
+    # recorded finding: YAML nested deeper than the C stack of ruamel's scanner kills the interpreter
+    n += 1
+    p = _loader_case("deep100k_json_only", ".yaml")
+    if p:
+        if "C06-F2" in known_ids and "interpreter died" in p:
+            hits.add("C06-F2")
+        else:
+            wit.append({"what": "junk input is not turned into a diagnostic", "input": {"case": "deep100k_json_only", "ext": ".yaml"}, "observed": p, "reproduced": True, "replay_func": "vlib.replay_checks:replay_loader"})
+    return result("violated" if wit or hits else "holds", f"{n} junk documents through the real loaders and generate()", queries=n, witnesses=wit[:5], known_hits=sorted(hits), cases=[f"loader:{k}" for k in _LOADER_CASES], bounds={"documents": f"{len(_LOADER_CASES)} byte strings x (.json, .yaml)"}, stubs=["replay oracle: concrete runs, not a solver verdict (json / ruamel.yaml are C code)"])
+
+
+def replay_loader(w: dict) -> dict:
+    p = _loader_case(w["input"]["case"], w["input"]["ext"])
+    return {"reproduced": bool(p), "observed": p}
